@@ -22,6 +22,11 @@ from tqv.core import HarnessError, Inconclusive, SubCheck, Violation, req
 from tqv.props import _c16_helpers as H
 from tqv.props._c16_helpers import FALSE_MARGIN, MARGINS, S, and3, dag, ent, mx, tri
 
+# caller-owned arrays handed to the library must come back unchanged (see tqv/purity.py)
+from tqv.purity import install as _install_purity  # noqa: E402
+
+_install_purity('toqito.matrix_props', 'toqito.matrix_ops', 'toqito.state_props')
+
 PROPERTY = "C16"
 RULE = (
     "Cases are drawn by Hypothesis: predicate-specific structure (size n in 1..6, real/complex, integer or Gaussian "
